@@ -2,13 +2,11 @@ package main
 
 import (
 	"bytes"
-	"errors"
 	"fmt"
 	"sort"
 	"strings"
 
 	"seehuhn.de/go/sfnt/header"
-	"seehuhn.de/go/sfnt/parser"
 )
 
 // parseTabs decodes `tabs=<namehex>:<datahex or ->,...` into a Go map (order irrelevant).
@@ -30,16 +28,6 @@ func parseTabs(f Fields) map[string][]byte {
 	return m
 }
 
-func mustHex(s string) []byte {
-	b := make([]byte, len(s)/2)
-	for i := range b {
-		var x byte
-		fmt.Sscanf(s[2*i:2*i+2], "%02x", &x)
-		b[i] = x
-	}
-	return b
-}
-
 func showTabs(m map[string]string) string {
 	keys := make([]string, 0, len(m))
 	for k := range m {
@@ -51,25 +39,6 @@ func showTabs(m map[string]string) string {
 		parts[i] = hx([]byte(k)) + ":" + m[k]
 	}
 	return strings.Join(parts, ",")
-}
-
-func canonPanic(s string) string {
-	if strings.HasPrefix(s, "panic:") {
-		return "panic"
-	}
-	return s
-}
-
-func errKind(err error) string {
-	var e1 *parser.NotSupportedError
-	var e2 *parser.InvalidFontError
-	switch {
-	case errors.As(err, &e1):
-		return "err:unsupported"
-	case errors.As(err, &e2):
-		return "err:invalid"
-	}
-	return "err:io"
 }
 
 func init() {
